@@ -27,6 +27,7 @@ Init == inp = <<>> /\ k = 0 /\ seed = 0
 AddTok(t, sep) ==
   /\ seed = 0 /\ k < W.maxtok
   /\ (sep => k > 0)
+  /\ (k >= 2 => \E j \in 1..Len(W.later) : W.later[j] = t)      \* from the third token on only the tokens listed in W.later
   /\ LET n == (IF sep THEN inp \o <<" ">> ELSE inp) \o W.tokens[t] IN
      /\ Count(n, "(") <= W.maxparen
      /\ inp' = n
